@@ -31,6 +31,14 @@ def gen_case(g, prop):
                   headers=g.choice([None, ['=', '*'], ['~'], ['+', '-', '^']]), recursive=True, auto_exclude=g.random() < 0.5)
     if prop == 'C18':
         output = g.choice(['abs', 'rel', 'nested', 'prepopulated', None, None])
+        # some files saved with CRLF line endings (doccomment lines keep their '\r'): stdout and the written page must be the same bytes.
+        # (Only here: the oracles of the naming/toctree properties read doc lines without expecting a '\r'.)
+        gc = random.Random(f"C18/crlf/{g.random()}")
+        def crlf(ch):
+            for c in ch:
+                if 'children' in c: crlf(c['children'])
+                elif c.get('content') and gc.random() < 0.15: c['content'] = c['content'].replace('\r\n', '\n').replace('\n', '\r\n')
+        crlf(children)
         if g.random() < 0.3:      # a CMake file that is a symbolic link to a file outside the input tree
             def link_one(ch):
                 fs = [c for c in ch if 'children' not in c and c['name'].lower().endswith('.cmake')]
